@@ -127,9 +127,50 @@ def call_notifiers_case(case):
     return dict(reproduced=bool(violated), violated=violated)
 
 
+def trait_set_quiet_rejection_case(case):
+    """C02 / C19: a quiet trait_set whose k-th keyword is rejected must leave the object as an object that never saw the
+    failure: every later real change still calls every handler exactly once (all three mechanisms)."""
+    from traits.api import HasTraits, Int, Str, TraitError, Property
+    violated = []
+
+    class P(HasTraits):
+        name = Str()
+        age = Int()
+        boom = Property(Int)
+        static_calls = 0
+
+        def _get_boom(self):
+            return 0
+
+        def _set_boom(self, v):
+            raise ValueError("setter fails")
+
+        def _age_changed(self, old, new):
+            self.static_calls += 1
+    for label, attempt in (("trait_setq(name, age=<invalid>)", lambda p: p.trait_setq(name="Bill", age="not a number")),
+                           ("trait_set(trait_change_notify=False, age=<invalid>)", lambda p: p.trait_set(trait_change_notify=False, age=None)),
+                           ("trait_setq(boom=1) with a raising property setter", lambda p: p.trait_setq(boom=1)),
+                           ("trait_set(age=<invalid>) (notifying)", lambda p: p.trait_set(age="x"))):
+        p = P()
+        dyn, obs = [], []
+        p.on_trait_change(lambda o, n, old, new: dyn.append((n, old, new)), "age")
+        p.observe(lambda e: obs.append((e.name, e.old, e.new)), "age")
+        try:
+            attempt(p)
+            violated.append("%s was accepted" % label)
+        except (TraitError, ValueError):
+            pass
+        before = p.static_calls
+        p.age = 31
+        if p.static_calls != before + 1 or dyn != [("age", 0, 31)] or obs != [("age", 0, 31)]:
+            violated.append("after a rejected %s, p.age = 31 called: static handler %d time(s), on_trait_change %r, observe %r (each expected once with old 0, new 31)"
+                            % (label, p.static_calls - before, dyn, obs))
+    return dict(reproduced=bool(violated), violated=violated)
+
+
 def main():
     case = json.loads(sys.stdin.read())
-    out = {"filter": filter_case, "call_notifiers": call_notifiers_case}[case["family"]](case)
+    out = {"filter": filter_case, "call_notifiers": call_notifiers_case, "trait_set_quiet_rejection": trait_set_quiet_rejection_case}[case["family"]](case)
     print(json.dumps(out, default=repr))
 
 
